@@ -702,7 +702,7 @@ func String(v string) Value {
 	return Value{t: TypeString, value: stringT(v)}
 }
 
-func (s stringT) Get(a Value) (Value, bool) { return Int(int(s[a.Int()])), true }
+func (s stringT) Get(a Value) (Value, bool) { return Byte(s[a.Int()]), true }
 func (s stringT) Set(k, v Value)            { panic("unsupported") }
 func (s stringT) Len() int                  { return len(s) }
 func (s stringT) Range() func() (Value, Value, bool) {
